@@ -14,8 +14,10 @@
 //! * `deletion-dropped-by-successful-supply` — after a successful supply the consumer still holds live a
 //!   uuid the supplier holds as tombstone or has reaped;
 //! * `lagging-consumer-served` — the supplier trimmed (purge_tombstones) at a time when this consumer's
-//!   last contact with it was more than the changelog window old, the consumer still lists the supplier's
-//!   origin, and yet the supply succeeds;
+//!   last contact with it (direct or through other replicas) was more than the changelog window old, and
+//!   yet the supply succeeds; recognised as `D46:lagging-consumer-forgot-origin-served` when the consumer's
+//!   own trim has dropped the supplier's origin from its update vector (the supplier then takes it for a
+//!   server that has never seen that origin);
 //! * `deleted-live-after-quiescence` — after a final all-pairs mesh in which every supply succeeded, a uuid
 //!   deleted anywhere is live somewhere;
 //! * `recycled-revived-by-concurrent-class-write` (sub-class of the first, recognised when the uuid was only
@@ -36,6 +38,7 @@ use std::collections::{BTreeMap, BTreeSet};
 
 const WINDOW: u64 = 7 * 86400;
 const NIDS: u8 = 6;
+const CLASS_FORGOT: &str = "D46:lagging-consumer-forgot-origin-served";
 
 #[derive(Clone, Debug, PartialEq, Eq)]
 enum Op {
@@ -136,11 +139,7 @@ impl Cluster {
     }
     fn cid_tok(&mut self, c: &RCid) -> String {
         let s = if c.1 == Uuid::nil() { 0 } else { self.sid(&c.1) };
-        // whole seconds expected; anything else is made visible
-        if c.0.subsec_nanos() != 0 {
-            return format!("{}:{s}", c.0.as_nanos());
-        }
-        format!("{}:{s}", c.0.as_secs())
+        format!("{}:{s}", c.0.as_nanos())
     }
 }
 
@@ -251,6 +250,7 @@ struct Stats {
     purge_t_trimmed_servers: u64,
     model_requests: u64,
     supplies_ok: u64,
+    deletions_lost_by_refresh: u64,
     oracle_checks: u64,
 }
 
@@ -259,6 +259,9 @@ struct Track {
     ever_deleted: Vec<BTreeSet<u8>>,
     ever_tomb: Vec<BTreeSet<u8>>,
     deleted_anywhere: BTreeSet<u8>,
+    /// id ↦ replicas that hold (or held, then reaped) the deletion
+    known_by: BTreeMap<u8, BTreeSet<usize>>,
+    deletions_lost_by_refresh: u64,
     /// heard[(c, s)]: the latest time such that c has received — directly or through other replicas — s's
     /// state as of that time
     last_contact: BTreeMap<(usize, usize), Duration>,
@@ -284,7 +287,7 @@ fn ruv_tok(c: &mut Cluster, ruv: &[RCid]) -> String {
 }
 
 fn ranges_tok(c: &mut Cluster, r: &BTreeMap<Uuid, (Duration, Duration)>) -> String {
-    let mut v: Vec<(u64, u64, u64)> = r.iter().map(|(u, (a, b))| (c.sid(u), a.as_secs(), b.as_secs())).collect();
+    let mut v: Vec<(u64, u128, u128)> = r.iter().map(|(u, (a, b))| (c.sid(u), a.as_nanos(), b.as_nanos())).collect();
     v.sort();
     if v.is_empty() { "-".into() } else { v.iter().map(|(k, a, b)| format!("{k}:{a}:{b}")).collect::<Vec<_>>().join(",") }
 }
@@ -293,6 +296,9 @@ fn note_states(t: &mut Track, server: usize, o: &Obs) {
     for (id, p) in &o.pool {
         if p.st == 'R' || p.st == 'T' {
             t.ever_deleted[server].insert(*id);
+            if t.deleted_anywhere.contains(id) {
+                t.known_by.entry(*id).or_default().insert(server);
+            }
         }
         if p.st == 'T' {
             t.ever_tomb[server].insert(*id);
@@ -323,11 +329,18 @@ fn repl_step(c: &mut Cluster, drv: &mut Driver, t: &mut Track, from: usize, to: 
         };
         match to_w.consumer_apply_changes(changes).map_err(|e| fail("impl-vs-oracle", "repl-error", "consumer_apply_changes succeeds".into(), format!("{e:?}")))? {
             ConsumerState::Ok => {
+                if name == "refresh" || name == "domainmismatch" {
+                    return Err(fail("impl-vs-oracle", "refresh-not-demanded", "the consumer reports RefreshRequired".into(), format!("reply {name}, consumer state Ok")));
+                }
                 if name == "supply" {
                     to_w.commit().map_err(|e| fail("impl-vs-oracle", "repl-error", "commit".into(), format!("{e:?}")))?;
                 }
             }
-            ConsumerState::RefreshRequired => {}
+            ConsumerState::RefreshRequired => {
+                if name != "refresh" && name != "domainmismatch" {
+                    return Err(fail("impl-vs-oracle", "refresh-demanded-without-cause", format!("reply {name} is applied or ignored"), "consumer state RefreshRequired".into()));
+                }
+            }
         }
         (name.to_string(), supplied, (trim.ts, trim.s_uuid))
     };
@@ -353,6 +366,20 @@ fn repl_step(c: &mut Cluster, drv: &mut Driver, t: &mut Track, from: usize, to: 
         // a refresh replaces the consumer's content by the supplier's: what it knew as deleted is what the supplier knows
         t.ever_deleted[to] = t.ever_deleted[from].clone();
         t.ever_tomb[to] = t.ever_tomb[from].clone();
+        // … including deletions only the refreshed replica knew of: by design they are gone
+        let ids: Vec<u8> = t.deleted_anywhere.iter().copied().collect();
+        for id in ids {
+            let set = t.known_by.entry(id).or_default();
+            if set.contains(&from) {
+                set.insert(to);
+            } else {
+                set.remove(&to);
+            }
+            if set.is_empty() {
+                t.deleted_anywhere.remove(&id);
+                t.deletions_lost_by_refresh += 1;
+            }
+        }
         let now = c.ct;
         heard_from(t, to, from, now);
     }
@@ -363,15 +390,19 @@ fn repl_step(c: &mut Cluster, drv: &mut Driver, t: &mut Track, from: usize, to: 
     // ---- oracle on a supply that reported success
     let post_c = observe(c, to).map_err(|e| fail("impl-vs-oracle", "observe", "readable".into(), e))?;
     st.oracle_checks += 1;
-    // lagging consumer
+    // lagging consumer: out of contact (directly and through others) with this supplier for longer than the
+    // window when the supplier last trimmed, and served nevertheless
     if let (Some(p), Some(own)) = (t.last_purge.get(&from), t.own_sid.get(&from)) {
         let lc = t.last_contact.get(&(to, from)).copied().unwrap_or(Duration::ZERO);
-        if lc + Duration::from_secs(WINDOW) < *p && pre_c.ranges.contains_key(own) {
+        if lc + Duration::from_secs(WINDOW) < *p {
+            // recogniser: the consumer's own trim has removed the supplier's origin from its update vector, so the
+            // supplier sees a server it has "never seen" instead of one that lags
+            let class = if pre_c.ranges.contains_key(own) { "lagging-consumer-served" } else { CLASS_FORGOT };
             return Err(fail(
                 "impl-vs-oracle",
-                "lagging-consumer-served",
+                class,
                 "RefreshRequired or UnwillingToSupply for a consumer out of contact for longer than the changelog window".into(),
-                format!("`repl {from} {to}` answered {reply}; last contact {} s before the supplier's purge", p.as_secs() - lc.as_secs()),
+                format!("`repl {from} {to}` answered {reply}; last contact {} s before the supplier's purge; consumer lists the supplier's origin: {}", p.as_secs() - lc.as_secs(), pre_c.ranges.contains_key(own)),
             ));
         }
     }
@@ -519,6 +550,8 @@ fn run_history(drv: &mut Driver, n: usize, steps: &[Step], st: &mut Stats) -> Ou
         ever_deleted: vec![BTreeSet::new(); n],
         ever_tomb: vec![BTreeSet::new(); n],
         deleted_anywhere: BTreeSet::new(),
+        known_by: BTreeMap::new(),
+        deletions_lost_by_refresh: 0,
         last_contact: BTreeMap::new(),
         last_purge: BTreeMap::new(),
         own_sid: BTreeMap::new(),
@@ -534,12 +567,16 @@ fn run_history(drv: &mut Driver, n: usize, steps: &[Step], st: &mut Stats) -> Ou
         let r: Result<(), Fail> = match stp {
             Step::On(s, op) => {
                 let res = std::panic::catch_unwind(std::panic::AssertUnwindSafe(|| exec_op(&mut c, *s, op))).unwrap_or_else(|_| "panic".into());
+                if std::env::var_os("C09_DEBUG").is_some() {
+                    eprintln!("    -> {res}");
+                }
                 if res == "ok" {
                     st.ok_ops += 1;
                     if let Op::Delete(id) = op {
                         st.deletes += 1;
                         t.deleted_anywhere.insert(*id);
                         t.ever_deleted[*s].insert(*id);
+                        t.known_by.entry(*id).or_default().insert(*s);
                     }
                     Ok(())
                 } else if res == "panic" || res.starts_with("err:other") || res.starts_with("err:write") || res.starts_with("err:commit") {
@@ -556,6 +593,15 @@ fn run_history(drv: &mut Driver, n: usize, steps: &[Step], st: &mut Stats) -> Ou
             Step::PurgeT(s) => purge_t(&mut c, drv, &mut t, *s, step, st, &mut out.model_fail),
             Step::Repl(a, b) => repl_step(&mut c, drv, &mut t, *a, *b, step, st, &mut out.model_fail).map(|_| ()),
         };
+        if std::env::var_os("C09_DEBUG").is_some() {
+            let mut line = format!("{step:>3} {:<24}", stp.token());
+            for s in 0..n {
+                if let Ok(o) = observe(&mut c, s) {
+                    line.push_str(&format!(" | r{s}: {}", o.pool.iter().map(|(i, p)| format!("{i}{}", p.st)).collect::<Vec<_>>().join(" ")));
+                }
+            }
+            eprintln!("{line}  {:?}", st.replies);
+        }
         if let Err(f) = r {
             out.hard = Some(f);
             return out;
@@ -563,6 +609,14 @@ fn run_history(drv: &mut Driver, n: usize, steps: &[Step], st: &mut Stats) -> Ou
     }
     // ---- final mesh: two rounds of all pairs; the quiescence oracle applies only if every supply succeeded
     let end = steps.len() + 1;
+    // the periodic task of every server (hourly in production): it anchors the server's own origin, without which a
+    // supplier idle for longer than the window hides its own changes from its view
+    for s in 0..n {
+        if let Err(f) = purge_t(&mut c, drv, &mut t, s, end, st, &mut out.model_fail) {
+            out.hard = Some(f);
+            return out;
+        }
+    }
     let mut all_ok = true;
     for _ in 0..2 {
         for a in 0..n {
@@ -580,6 +634,7 @@ fn run_history(drv: &mut Driver, n: usize, steps: &[Step], st: &mut Stats) -> Ou
         }
     }
     out.final_mesh_all_ok = all_ok;
+    st.deletions_lost_by_refresh = t.deletions_lost_by_refresh;
     if all_ok {
         for s in 0..n {
             let o = match observe(&mut c, s) {
@@ -659,8 +714,8 @@ fn directed() -> Vec<(&'static str, usize, Vec<&'static str>)> {
     vec![
         // the whole lifecycle, both replicas in contact
         ("lifecycle-in-contact", 2, vec![
-            "on 0 create 1", "repl 0 1", "on 1 delete 1", "repl 1 0", "tick 169", "purger 1", "purget 1", "repl 1 0", "purger 0", "tick 100", "purget 0", "repl 0 1",
-            "tick 100", "purget 1", "purget 0", "repl 1 0", "repl 0 1",
+            "on 0 create 1", "repl 0 1", "repl 1 0", "on 1 delete 1", "repl 1 0", "repl 0 1", "tick 100", "purget 0", "purget 1", "repl 0 1", "repl 1 0", "tick 69", "purger 1", "purger 0",
+            "repl 1 0", "repl 0 1", "tick 100", "purget 1", "purget 0", "repl 0 1", "repl 1 0", "tick 69", "purget 0", "purget 1", "repl 1 0", "repl 0 1", "tick 100", "purget 0", "purget 1", "repl 0 1", "repl 1 0",
         ]),
         // delete racing an edit
         ("delete-vs-edit", 2, vec!["on 0 create 1", "repl 0 1", "on 1 delete 1", "on 0 desc 1 d1", "repl 0 1", "repl 1 0", "tick 169", "purger 0", "purger 1", "repl 0 1", "repl 1 0"]),
@@ -676,6 +731,9 @@ fn directed() -> Vec<(&'static str, usize, Vec<&'static str>)> {
         ("three-replicas-relay", 3, vec![
             "on 0 create 1", "repl 0 1", "repl 0 2", "on 0 delete 1", "repl 0 1", "tick 169", "purger 0", "purger 1", "repl 1 2", "tick 100", "purget 0", "purget 1", "purget 2", "repl 2 0", "repl 0 2",
         ]),
+        // a consumer out of contact for longer than the window that has trimmed the supplier's origin away: served, the
+        // deletion is never delivered
+        ("forgetful-consumer", 2, vec!["on 1 create 3", "repl 1 0", "on 0 delete 3", "tick 167", "on 1 desc 3 d2", "tick 72", "repl 1 0", "purget 0", "purget 1", "repl 0 1"]),
         // tombstones made independently on two replicas settle on the earlier one
         ("two-tombstones", 2, vec!["on 0 create 1", "repl 0 1", "on 0 delete 1", "on 1 delete 1", "tick 169", "purger 0", "tick 1", "purger 1", "repl 0 1", "repl 1 0"]),
         // a class write on a replica that does not know of the delete
@@ -704,6 +762,7 @@ fn run_case(drv: &mut Driver, rep: &mut Report, reported: &mut BTreeMap<String, 
         ("servers-trimmed-from-ruv", st.purge_t_trimmed_servers),
         ("successful-supplies-checked", st.oracle_checks),
         ("deletes", st.deletes),
+        ("deletions-lost-by-a-protocol-refresh", st.deletions_lost_by_refresh),
     ] {
         rep.count_n(&format!("{prefix}:{k}"), v);
     }
@@ -738,7 +797,7 @@ fn run_case(drv: &mut Driver, rep: &mut Report, reported: &mut BTreeMap<String, 
         let mut cur: Vec<Step> = steps[..f.step.min(steps.len())].to_vec();
         let (class, kind) = (f.class.clone(), f.kind);
         let (mut expected, mut observed) = (f.expected.clone(), format!("step {}: {}", f.step, f.observed));
-        if shrink && seen < 1 {
+        if shrink && seen < 1 && class != CLASS_FORGOT {
             let has = |o: &Outcome| -> Option<(String, String)> {
                 for g in [&o.hard, &o.model_fail].into_iter().flatten() {
                     if g.class == class && g.kind == kind {
